@@ -112,3 +112,39 @@ def run(prog, chk):
     if chareval.rule(prog, r4) < 5:
         raise Broken("fewer than 5 expansions of SCAN_UCHAR")
 
+    r5 = chk.rule("R5-signature-encoding-kept", "in cif_parse the encoding name returned by ucnv_detectUnicodeSignature is overwritten "
+                  "only on paths where it was found to be NULL (no signature): a detected Unicode signature decides the encoding, "
+                  "whatever the version preference", primary=False, floor=2)
+    cp = prog.fn("cif_parse")
+    det = None
+    for (b, i, r, a) in cp.eval_sites("asg"):
+        rr = strip(a.get("rhs"))
+        if isinstance(rr, dict) and rr.get("k") == "call" and rr.get("callee") == "ucnv_detectUnicodeSignature" and path(strip(a.get("lhs"))):
+            det = (b, i, path(strip(a.get("lhs"))))
+    if det is None:
+        raise Broken("cif_parse: no assignment from ucnv_detectUnicodeSignature found")
+    db, di, var = det
+
+    def is_null(c):
+        z = cfgq.zero_test(c, lambda e: path(strip(e)) == var)
+        return None if z is None else z
+    null_edges = cfgq.guard_edges(cp, is_null)
+    free = cfgq.reach(cp, [db.id], (), null_edges)
+    n5 = 0
+    for (b, i, r, a) in cp.eval_sites("asg"):
+        if path(strip(a.get("lhs"))) != var or (b.id == db.id and i == di):
+            continue
+        if b.id not in cfgq.reach(cp, [db.id]):
+            continue                # the forced-encoding branch: no detection took place
+        n5 += 1
+        key = "cif_parse:L%s:%s=" % (a.get("l"), var)
+        if b.id in free:
+            r5.violation(cp.file, cp.name, a.get("l"), "signature-overwritten:L%s" % a.get("l"),
+                         "`%s` is assigned at L%s on a path from the signature detection (L%s) that has not found it NULL: the "
+                         "encoding of a detected UTF-16 / UTF-32 signature is replaced, and the document is decoded as garbage"
+                         % (var, a.get("l"), db.roots[di].get("l")))
+        else:
+            r5.ok(key, "only after `%s` was found NULL" % var)
+    if n5 < 2:
+        raise Broken("cif_parse: fewer than 2 assignments to the encoding name after the signature detection")
+
